@@ -14,6 +14,7 @@ package opshell
 // writePlain: muted => nothing written, the lull clock restarts; not muted =>
 // exactly the given string is written once, nothing added.
 //@ func Shell.writePlain(s, line) (err)
+//@   locals s line err
 //@   props C19 C03
 //@   ghost sil0 bool = false
 //@   ghost nWrite int = 0
@@ -27,12 +28,14 @@ package opshell
 
 // Logf: status and log lines are always written, muted or not.
 //@ func Shell.Logf(s, color, noTS, format, v) (n, err)
+//@   locals s color noTS format v
 //@   props C19 C10
 //@   ghost k int = 0
 //@   on enter logf(w, esc, c, nts, f, vv): assert(w == s.t && c == color && f == format && vv == v && imp(noTS, nts), "always_passed_to_the_terminal_writer_unchanged"); k++
 //@   ensures always_written: k == 1
 
 //@ func logf(w, escape, color, noTS, format, v) (n, err)
+//@   locals w escape color noTS format v m b n err
 //@   props C10 C19
 //@   nilable escape
 //@   ghost sawMsg bool = false
@@ -43,6 +46,7 @@ package opshell
 
 // resetSilenceTimer: caller holds wL.
 //@ func Shell.resetSilenceTimer(s, updateLast)
+//@   locals s updateLast
 //@   props C19
 //@   holds Shell.wL
 //@   ghost now time.Time
@@ -59,6 +63,7 @@ package opshell
 // handleOutput: every received line is handled exactly once: plain lines go to
 // writePlain with the identical string, others to Logf through the constant "%s".
 //@ func Shell.handleOutput(s, ctx) (err)
+//@   locals s ctx cl ok p err
 //@   props C03 C10 C19
 //@   ghost pending bool = false
 //@   ghost cur CLine
@@ -79,6 +84,7 @@ package opshell
 
 // The timer callback: unmutes only after a full pause without plain writes.
 //@ func New#1()
+//@   locals ich och prompt noTimestamps insertGen insertName s key err oldState cleanup err
 //@   props C19
 //@   ghost sil0 bool = false
 //@   ghost last0 time.Time
@@ -107,6 +113,7 @@ package opshell
 
 // ---- operator input path (C02)
 //@ func ChanWriter.Write(cw, b) (n, err)
+//@   locals cw b
 //@   props C02
 //@   ghost k int = 0
 //@   on send cw(v): assert(v == string(b) && k == 0, "one_send_of_the_whole_payload"); k++
@@ -148,6 +155,7 @@ package opshell
 // input channel exactly once, in the order read, before the next is read; a
 // read failure ends the reader without sending anything.
 //@ func Shell.Do#1() (err)
+//@   locals s ctx eg ectx l err
 //@   props C02
 //@   ghost have bool = false
 //@   ghost cur string = ""
@@ -175,6 +183,7 @@ package opshell
 
 // resize gives the terminal the size of the tty.
 //@ func Shell.resize(s) (err)
+//@   locals s w h err err
 //@   props C20
 //@   ghost gw int = 0
 //@   ghost gh int = 0
@@ -191,6 +200,7 @@ package opshell
 // insert: what Ctrl+I sends to the shell is exactly what the generator
 // returned, once, and only if it is not empty.
 //@ func Shell.insert(s)
+//@   locals s errf format args b err her n
 //@   props C17 C02
 //@   ghost gen []byte = nil
 //@   ghost genErr bool = false
